@@ -187,3 +187,93 @@ func ZZC06() {
 }
 
 func init() { ZZHarnesses["ZZC06"] = ZZC06 }
+
+// c06Lines: a JSON text written one token group per line; after[i] tells what may follow line i:
+// 'a' an annotation, a note or a user comment, 'c' a user comment only.
+var c06Lines = []struct {
+	text  string
+	after byte
+}{
+	{`{`, 'a'}, {`  "a": 1,`, 'a'}, {`  "b": [`, 'a'}, {`    2,`, 'a'}, {`    "s"`, 'a'}, {`  ],`, 'c'}, {`  "c": {},`, 'a'}, {`  "d": null`, 'a'}, {`}`, 'c'},
+}
+
+var c06Tails = []string{
+	` // note`, ` // note # remark`, ` // {optional: true}`, ` // {optional: true} - note`, ` // {optional: true} - note # remark`,
+	` /* {nullable: true} */`, ` # remark`, ` #`, ` // {optional: true} # remark`,
+}
+
+// ZZC06Annotated: the plain-JSON part of a schema gives the events of the JSON scanner whatever
+// annotations, notes and user comments stand at the ends of its lines (up to `sites` of them).
+func ZZC06Annotated() {
+	var plain, ann []byte
+	sites := 0
+	for i, l := range c06Lines {
+		plain = append(plain, l.text...)
+		ann = append(ann, l.text...)
+		if sites < v.Param("sites", 2) && v.Choose(0, 1) == 1 {
+			sites++
+			t := c06Tails[6+v.Choose(0, 1)]
+			if l.after == 'a' {
+				t = c06Tails[v.Choose(0, len(c06Tails)-1)]
+			}
+			ann = append(ann, t...)
+		}
+		if i < len(c06Lines)-1 {
+			plain = append(plain, '\n')
+			ann = append(ann, '\n')
+		}
+	}
+	v.Observe("text", ann)
+	var want []lexeme.LexEvent
+	doc := json.New("d", plain)
+	for i := 0; i < 200; i++ {
+		lex, err := doc.NextLexeme()
+		if err != nil {
+			break
+		}
+		want = append(want, lex)
+	}
+	sc := scanner.New(fs.NewFile("s", ann))
+	var got []lexeme.LexEvent
+	ok := false
+	func() {
+		defer func() { recover() }()
+		depth := 0
+		for i := 0; i < 600; i++ {
+			lex, more := sc.Next()
+			if !more {
+				break
+			}
+			switch lex.Type() {
+			case lexeme.InlineAnnotationBegin, lexeme.MultiLineAnnotationBegin:
+				depth++
+				continue
+			case lexeme.InlineAnnotationEnd, lexeme.MultiLineAnnotationEnd:
+				depth--
+				continue
+			case lexeme.NewLine:
+				continue
+			}
+			if depth == 0 {
+				got = append(got, lex)
+			}
+		}
+		ok = true
+	}()
+	v.Assert(ok, "C06/schema-scanner-rejects-annotated-json")
+	if !ok {
+		return
+	}
+	v.Assert(len(got) == len(want), "C06/annotated-event-count")
+	if len(got) == len(want) {
+		for i := range got {
+			v.Assert(got[i].Type() == want[i].Type(), "C06/annotated-event-type")
+			if got[i].Type() == lexeme.LiteralEnd || got[i].Type() == lexeme.ObjectKeyEnd {
+				v.Assert(string(got[i].Value()) == string(want[i].Value()), "C06/annotated-event-value")
+			}
+		}
+	}
+	v.Reach("C06/annotated")
+}
+
+func init() { ZZHarnesses["ZZC06Annotated"] = ZZC06Annotated }
